@@ -73,10 +73,13 @@ fn bump(e: &Env, k: soroban_sdk::Symbol, from: Option<Address>, to: Option<Addre
 }
 #[contractimpl]
 impl Compl {
-    pub fn can_transfer(e: &Env, _from: Address, _to: Address, _amount: i128, _token: Address) -> bool {
+    /// the question is recorded too (who is asked about matters: real compliance rules depend on the direction)
+    pub fn can_transfer(e: &Env, from: Address, to: Address, amount: i128, token: Address) -> bool {
+        e.storage().persistent().set(&(symbol_short!("ctq"), symbol_short!("last")), &(Some(from), Some(to), amount, token));
         e.storage().instance().get(&symbol_short!("ct")).unwrap_or(true)
     }
-    pub fn can_create(e: &Env, _to: Address, _amount: i128, _token: Address) -> bool {
+    pub fn can_create(e: &Env, to: Address, amount: i128, token: Address) -> bool {
+        e.storage().persistent().set(&(symbol_short!("ccq"), symbol_short!("last")), &(None::<Address>, Some(to), amount, token));
         e.storage().instance().get(&symbol_short!("cc")).unwrap_or(true)
     }
     pub fn transferred(e: &Env, from: Address, to: Address, amount: i128, token: Address) {
@@ -625,6 +628,15 @@ impl Check for RwaCheck {
                 };
                 if !ok {
                     self.clause(st, &mut parked, violation("notify.exactly_once", "args", i, format!("wrong parties/amount notified for {s:?}")))?;
+                }
+                // and the approval was asked for this very movement: same parties in the same direction, same amount
+                let asked = match s {
+                    Step::Transfer { from, to, amt, .. } | Step::TransferFrom { from, to, amt, .. } => chk(symbol_short!("ctq"), Some(*from), Some(*to), *amt),
+                    Step::Mint { to, amt } => chk(symbol_short!("ccq"), None, Some(*to), *amt),
+                    _ => true,
+                };
+                if !asked {
+                    self.clause(st, &mut parked, violation("gate.compliance_asked_about_this_transfer", kind, i, format!("can_transfer / can_create was asked about other parties or another amount than {s:?}")))?;
                 }
             }
             if c.paused() != m.paused {
